@@ -187,7 +187,10 @@ def run_case(case, col=None):
         djc_path = os.path.dirname(os.path.abspath(django_components.__file__))
 
         # ---- model sources
-        sources = [(d, proj, None) for d in comp_dirs if os.path.isdir(d)]
+        # which of the generated (populated) dirs are *configured*: COMPONENTS.dirs wins over STATICFILES_DIRS whenever it is
+        # set, and an explicit empty list means "no dirs" (get_component_dirs: "so user can explicitly specify NO dirs")
+        model_dirs = {"dirs_empty": [], "dirs_and_static": comp_dirs[:1]}.get(case["source"], comp_dirs)
+        sources = [(d, proj, None) for d in model_dirs if os.path.isdir(d)]
         for name, path in [("django_components", djc_path)] + app_infos:
             for ad in app_dirs:
                 d = posixpath.join(path, ad)
@@ -202,6 +205,12 @@ def run_case(case, col=None):
         elif case["source"] == "static":
             cur["dirs"] = None
             over["STATICFILES_DIRS"] = configured
+        elif case["source"] == "dirs_empty":
+            cur["dirs"] = [] if case.get("base_dir_form") == "path" else ()
+            over["STATICFILES_DIRS"] = configured
+        elif case["source"] == "dirs_and_static":
+            cur["dirs"] = configured[:1]
+            over["STATICFILES_DIRS"] = configured[1:]
         else:  # default: BASE_DIR / "components"
             cur["dirs"] = None
         over["COMPONENTS"] = cur
@@ -389,7 +398,7 @@ def case_strategy(max_files):
 
     @st.composite
     def build(draw):
-        source = draw(st.sampled_from(["dirs", "dirs", "dirs", "static", "static", "default"]))
+        source = draw(st.sampled_from(["dirs", "dirs", "dirs", "static", "static", "default", "dirs_empty", "dirs_and_static"]))
         if source == "default":
             compdirs = ["components"]
         else:
